@@ -219,6 +219,7 @@ type wcfg struct {
 	nops     int
 	keysPer  int
 	bigEvery int
+	fatEvery int
 	wb       int
 }
 
@@ -244,8 +245,8 @@ func (e *env) writer(c int, rng *rand.Rand, cfg wcfg, wg *sync.WaitGroup) {
 			l := 8 + rng.Intn(40)
 			if big {
 				l = cfg.wb/2 + rng.Intn(cfg.wb)
-			} else if rng.Intn(8) == 0 {
-				l = cfg.wb / 4
+			} else if rng.Intn(cfg.fatEvery) == 0 {
+				l = cfg.wb / 4 // fat values make merged groups overflow: the lock is handed to the writer that did not fit
 			}
 			v, id := e.fresh(l)
 			ops = append(ops, [2]int{k, id})
@@ -270,7 +271,13 @@ func (e *env) writer(c int, rng *rand.Rand, cfg wcfg, wg *sync.WaitGroup) {
 				err = e.db.Put(e.u.Key(ops[0][0]), val, wo)
 			}
 		} else {
+			before := append([]byte(nil), b.Dump()...)
 			err = e.db.Write(b, wo)
+			if !bytes.Equal(before, b.Dump()) {
+				// C20: Write must not modify the caller's batch; no specification step explains such a return
+				e.ret(c, op, vt.Ev{"err": "batch-modified"})
+				continue
+			}
 		}
 		e.ret(c, op, vt.Ev{"err": errName(err)})
 		if rng.Intn(4) == 0 {
@@ -451,6 +458,7 @@ func main() {
 	fault := flag.String("fault", "", "kind:filetype:index:count storage fault")
 	hang := flag.Int("hang", 20, "seconds without progress before blocked calls are reported")
 	procs := flag.Int("procs", 0, "GOMAXPROCS (0: by seed)")
+	fat := flag.Int("fat", 8, "one value in this many is a quarter of the write buffer")
 	flag.Parse()
 
 	rng := rand.New(rand.NewSource(*seed))
@@ -514,7 +522,7 @@ func main() {
 	for i := 0; i < *nw; i++ {
 		c++
 		wg.Add(1)
-		go e.writer(c, rand.New(rand.NewSource(*seed*100+int64(c))), wcfg{nops: *nops, keysPer: 4, bigEvery: 25, wb: e.o.WriteBuffer}, &wg)
+		go e.writer(c, rand.New(rand.NewSource(*seed*100+int64(c))), wcfg{nops: *nops, keysPer: 4, bigEvery: 25, fatEvery: *fat, wb: e.o.WriteBuffer}, &wg)
 	}
 	for i := 0; i < *nr; i++ {
 		c++
